@@ -183,6 +183,21 @@ def index_capture(ctx):
                         it = cfg.blocks[b].term
                         sl = prov.slice(f, it.args[-1])
                         variants = {v for a, v in sl.aggs if a.endswith("ComponentTypeRef")}
+                        if len(variants) > 1:
+                            # the reference was built by an earlier `match` on the same item kind: keep the variants built in the
+                            # arm for the kind under which the counter is read (the two matches are correlated by the discriminant)
+                            import tables
+                            arms = tables.switch_arms(db, prov, f)
+                            here = {(adt, v) for _, adt, al, _ in arms for v, tg in al if cfg.dominates(tg, t.bb)}
+                            if here:
+                                kept = set()
+                                for st in f.stmts():
+                                    if st.rv.k == "agg" and (st.rv.j.get("adt") or "").endswith("ComponentTypeRef") and st.rv.j.get("variant") in variants:
+                                        built = {(adt, v) for _, adt, al, _ in arms for v, tg in al if cfg.dominates(tg, st.bb)}
+                                        if not built or built & here:
+                                            kept.add(st.rv.j["variant"])
+                                if kept:
+                                    variants = kept
                         want = {"type": {"Type"}, "instance": {"Instance"}, "core_type": set()}[space]
                         if variants and not (variants <= want):
                             ok = False
